@@ -1,4 +1,5 @@
 import RdsProofs.Reach
+import RdsProofs.WordedProofs
 /-!
 # Property C01 — basic tuning fields always equal the last error-free reception
 
@@ -9,6 +10,9 @@ Quantification: every table configuration `tb`, every history `ops` from initial
 (all 16 group types, any block values, any error codes — `Group` fields are unbounded naturals).
 -/
 -- THEOREM: RDS.C01
+-- THEOREM: RDS.C01_worded
+-- THEOREM: RDS.C01_never_unknown
+-- THEOREM: RDS.C01_received_nonneg
 -- THEOREM: RDS.C01_normal_mode_shows_last
 namespace RDS
 
